@@ -1,12 +1,135 @@
 /- Driver operations of property C14 (ops are named "c14.<name>"). Core + Lean.Data.Json only. -/
 import Reamber.Util.Json
+import Reamber.Model.Effects
+import Reamber.Spec.Effects
 
 open Lean Reamber.J
 
 namespace Reamber.C14
 
-def handle (op : String) (_j : Json) : Except String Json :=
+open Reamber.Effects
+
+def pairOf? (j : Json) : Except String (String × String) :=
+  match j with
+  | Json.arr #[a, b] => do .ok (← strOf? a, ← strOf? b)
+  | _ => .error s!"pair expected: {j}"
+
+def frameOf? (j : Json) : Except String Frame := do
+  .ok { kind := ← getStr j "kind", cols := ← getArr pairOf? j "cols", labels := ← getArr strOf? j "labels",
+        rows := ← getArr (arrOf? strOf?) j "rows" }
+
+def cellOf? (j : Json) : Except String (String × Ref) :=
+  match j with
+  | Json.arr #[a, b] => do .ok (← strOf? a, ← natOf? b)
+  | _ => .error s!"cell expected [path, ref]: {j}"
+
+def selToJson (s : Nat × String) : Json := Json.arr #[natToJson s.1, Json.str s.2]
+
+def sigToJson (s : Sig) : Json :=
+  obj [("name", Json.str s.name), ("arity", natToJson s.arity), ("writes", listToJson selToJson s.writes),
+       ("shares", listToJson selToJson s.shares), ("copy", Json.bool s.copy), ("deep", Json.bool s.deep)]
+
+/-- heap given on the wire as indices into the table of distinct frames -/
+def heapOf (frames : Array Frame) (ix : List Nat) : Except String (Heap Frame) :=
+  ix.mapM (fun i => match frames[i]? with | some f => .ok f | none => .error s!"frame index {i} out of range")
+
+structure Acc where
+  st : State Frame
+  legal : Bool := true
+  firstIllegal : Option Nat := none
+  continuous : Bool := true
+  out : List Json := []
+
+def unknownSig (name : String) : Sig := { name, arity := 0, writes := [], shares := [], copy := false, deep := false }
+
+def stepOr (acc : Acc) (i : Nat) (e : Event Frame) (fallback : State Frame) : Acc :=
+  match step opTable acc.st e with
+  | some st' => { acc with st := st' }
+  | none => { acc with st := fallback, legal := false, firstIllegal := acc.firstIllegal.orElse (fun _ => some i) }
+
+def checkEvent (frames : Array Frame) (acc : Acc) (i : Nat) (j : Json) : Except String Acc := do
+  let name ← getStr j "sig"
+  let raised := (fieldD j "raised" Json.null) != Json.null
+  let args ← getArr (arrOf? cellOf?) j "args"
+  let n ← getNat j "n"
+  let before ← heapOf frames (← getArr natOf? j "before")
+  let after ← heapOf frames (← getArr natOf? j "after")
+  let news ← heapOf frames (← getArr natOf? j "news")
+  let ret ← getArr natOf? j "ret"
+  let mutated ← getBool j "mutated"
+  let continuous := acc.continuous && decide (acc.st.heap = before) && decide (before.length = n)
+  let written := (changed before after).filter (· < n)
+  let argRefs := reach args
+  let frameOk := frameB before after argRefs
+  if raised then
+    let o := obj [("known", Json.bool true), ("within", Json.bool true), ("frame_ok", Json.bool frameOk),
+                  ("fresh_ok", Json.bool true), ("mut_ok", Json.bool true), ("mut_within", Json.bool true),
+                  ("deep_ok", Json.bool true), ("deep_changed", listToJson natToJson []),
+                  ("written", listToJson natToJson written), ("shared", listToJson natToJson []),
+                  ("mut_changed", listToJson natToJson [])]
+    return { acc with st := { acc.st with heap := after ++ news }, continuous, out := o :: acc.out }
+  let (sig, known) := match lookup name with
+    | some s => (s, true)
+    | none => (unknownSig name, false)
+  let beh : Beh Frame := { writes := written.filterMap (fun r => (after[r]?).map (fun f => (r, f))), news, ret }
+  let within := beh.within sig n args
+  let freshOk := !sig.copy || freshB n ret
+  let post := after ++ news
+  let acc1 := stepOr { acc with continuous } i (.call sig args beh)
+                { heap := post, results := acc.st.results ++ [(sig.copy, ret)] }
+  let shareable := selAll args sig.shares
+  let mut mutOk := true
+  let mut mutWithin := true
+  let mut mutChanged : List Nat := []
+  let mut acc2 := acc1
+  if mutated then
+    let afterMut ← heapOf frames (← getArr natOf? j "after_mut")
+    mutOk := frameB before (afterMut.take n) argRefs
+    let ch := changed post afterMut
+    mutChanged := ch.filter (· < n)
+    mutWithin := mutChanged.all (fun r => shareable.contains r)
+    let t := acc1.st.results.length - 1
+    let ws := ch.filterMap (fun r => (afterMut[r]?).map (fun f => (r, f)))
+    let back := ch.filterMap (fun r => (post[r]?).map (fun f => (r, f)))
+    -- the client's change of the result, and its restoration, as events of the model
+    acc2 := stepOr acc2 i (.mutate t ws) { acc2.st with heap := afterMut }
+    acc2 := stepOr acc2 i (.mutate t back) { acc2.st with heap := post }
+  -- second probe (deepcopy results): in-place change of the cell objects inside object columns.  Cell objects are
+  -- part of their frame's snapshot, not cells of the model, so this probe is evaluated by the spec only.
+  let mut deepOk := true
+  let mut deepChanged : List Nat := []
+  match j.getObjVal? "after_deep" with
+  | .ok (Json.arr a) =>
+    let afterDeep ← heapOf frames (← a.toList.mapM natOf?)
+    deepOk := frameB before (afterDeep.take n) argRefs
+    deepChanged := (changed post afterDeep).filter (· < n)
+  | _ => pure ()
+  let o := obj [("known", Json.bool known), ("within", Json.bool within), ("frame_ok", Json.bool frameOk),
+                ("fresh_ok", Json.bool freshOk), ("mut_ok", Json.bool mutOk), ("mut_within", Json.bool mutWithin),
+                ("deep_ok", Json.bool deepOk), ("deep_changed", listToJson natToJson deepChanged),
+                ("written", listToJson natToJson written), ("shared", listToJson natToJson (ret.filter (· < n))),
+                ("mut_changed", listToJson natToJson mutChanged)]
+  return { acc2 with out := o :: acc2.out }
+
+def handle (op : String) (j : Json) : Except String Json := do
   match op with
+  | "c14.table" => .ok (okJson (listToJson sigToJson opTable))
+  | "c14.check" =>
+    let frames := (← getArr frameOf? j "frames").toArray
+    let heap0 ← heapOf frames (← getArr natOf? j "heap0")
+    let final ← heapOf frames (← getArr natOf? j "final")
+    let evs ← field j "events"
+    let evs ← match evs with
+      | Json.arr a => pure a.toList
+      | _ => .error "events: not an array"
+    let mut acc : Acc := { st := { heap := heap0, results := [] } }
+    let mut i := 0
+    for e in evs do
+      acc ← checkEvent frames acc i e
+      i := i + 1
+    .ok (okJson (obj [("events", Json.arr acc.out.reverse.toArray), ("legal", Json.bool acc.legal),
+                      ("first_illegal", optToJson natToJson acc.firstIllegal),
+                      ("final_equal", Json.bool (acc.continuous && decide (acc.st.heap = final)))]))
   | _ => .error s!"unknown op {op}"
 
 end Reamber.C14
